@@ -30,7 +30,8 @@ TARGETS = {
     "C20": [("plotink/text_utils.py", None)],
     "C04": [("plotink/ebb3_serial.py", None), ("plotink/ebb3_motion.py", None)],
     "C05": [("plotink/ebb3_serial.py", ["command", "query", "query_statusbyte", "reboot", "bootload", "record_error", "var_write", "var_read",
-                                        "var_write_int32", "var_read_int32", "write_nickname", "query_nickname"])],
+                                        "var_write_int32", "var_read_int32", "write_nickname", "query_nickname"]),
+            ("plotink/ebb3_motion.py", ["query_steps", "dio_b_read", "query_voltage", "query_current", "motors_query_enabled"])],
     "C15": [("plotink/ebb3_serial.py", ["connect", "min_version", "parse_version", "disconnect", "_get_port_name"]),
             ("plotink/ebb_serial.py", ["min_version", "queryVersion"]), ("plotink/ebb_motion.py", ["servo_timeout", "queryVoltage"])],
     "C16": [("plotink/ebb3_serial.py", ["var_write_int32", "var_read_int32", "write_nickname", "query_nickname"]),
